@@ -1,5 +1,92 @@
+import Agd.Model.ECS
 import Agd.Driver.Util
-/-! Line-protocol driver for the C05 model (stub: not built yet). -/
+/-! Line-protocol driver for the C05 model (ECS cache path). -/
 namespace Agd.Driver.C05
-def main : IO Unit := Agd.Driver.loop (fun (s : Unit) _ => (s, "bad-op")) ()
+open Agd.ECS Agd.Driver
+
+structure S where
+  data : List ((Fam × Nat) × Loc) := []
+  sub : List ((Loc × Fam) × Option Pfx) := []
+  fake : List Nat := []
+  st : St := St.empty
+
+def fam! (s : String) : Fam := if s == "6" then .v6 else .v4
+
+def S.env (s : S) : Env :=
+  { data := fun f a => (s.data.find? (fun e => e.1 == (f, a))).map (·.2)
+    subnet := fun l f =>
+      match s.sub.find? (fun e => e.1 == (l, f)) with
+      | some e => e.2
+      | none => some (zeroPfx f)
+    fake := fun h => s.fake.contains h }
+
+def parseOpt (t : String) : Opt :=
+  match t.splitOn ":" with
+  | ["e", fa, al, av, m, sc] => .ecs ⟨nat! fa, nat! al, nat! av, nat! m, nat! sc⟩
+  | ["o", c] => .other (nat! c)
+  | _ => .other 0
+
+/-- Parses `n` option tokens. -/
+def takeOpts : Nat → List String → List Opt × List String
+  | 0, ts => ([], ts)
+  | n + 1, t :: ts => let r := takeOpts n ts; (parseOpt t :: r.1, r.2)
+  | _ + 1, [] => ([], [])
+
+/-- Parses `n` OPT RRs: `<do> <nopt> <opt>*`. -/
+def takeRRs : Nat → List String → List OptRR × List String
+  | 0, ts => ([], ts)
+  | n + 1, d :: k :: ts =>
+    let o := takeOpts (nat! k) ts
+    let r := takeRRs n o.2
+    (⟨bool! d, o.1⟩ :: r.1, r.2)
+  | _ + 1, _ => ([], [])
+
+def showOpt : Opt → String
+  | .ecs e => s!"e:{e.family}:{e.alen}:{e.aval}:{e.mask}:{e.scope}"
+  | .other c => s!"o:{c}"
+
+def showRRs (rrs : List OptRR) : String :=
+  if rrs.isEmpty then "-"
+  else String.join (rrs.map fun rr => "[" ++ ",".intercalate (rr.opts.map showOpt) ++ "]")
+
+def showECS (os : List Opt) : String :=
+  if os.isEmpty then "-" else ",".intercalate (os.map showOpt)
+
+def showOut (o : Out) : String :=
+  let kind := match o.kind with | .formerr => "formerr" | .err => "err" | .ok => "ok"
+  let up := match o.up with | none => "-" | some rrs => showRRs rrs
+  let tok := match o.tok with | none => "-" | some t => toString t
+  let ecs := if o.kind == .ok then showECS (ecsOpts o.rextra) else "-"
+  s!"{kind} up={up} tok={tok} ecs={ecs}"
+
+def step (s : S) : List String → S × String
+  | ["reset"] => ({}, "ok")
+  | ["fake", h] => ({ s with fake := nat! h :: s.fake }, "ok")
+  | ["data", f, a, c, sd, asn] =>
+    ({ s with data := ((fam! f, nat! a), ⟨nat! c, nat! sd, nat! asn⟩) :: s.data }, "ok")
+  | ["sub", c, sd, asn, f, pf, pa, pb] =>
+    let v : Option Pfx := if pf == "0" then none else some ⟨fam! pf, nat! pa, nat! pb⟩
+    ({ s with sub := ((⟨nat! c, nat! sd, nat! asn⟩, fam! f), v) :: s.sub }, "ok")
+  | "setecs" :: isResp :: pf :: pa :: pb :: nrr :: rest =>
+    (s, showRRs (setECS (takeRRs (nat! nrr) rest).1 ⟨fam! pf, nat! pa, nat! pb⟩ (bool! isResp)))
+  | ["locfrom", hasCl, c, sd, asn, hasEl, c', sd', asn'] =>
+    let cl : Option Loc := if bool! hasCl then some ⟨nat! c, nat! sd, nat! asn⟩ else none
+    let el : Option Loc := if bool! hasEl then some ⟨nat! c', nat! sd', nat! asn'⟩ else none
+    let l := locFromReq cl el
+    (s, s!"{l.ctry} {l.subdiv} {l.asn}")
+  | ["dep", scope, h] => (s, showB (respIsECSDependent s.env (nat! scope) (nat! h)))
+  | "req" :: rf :: ra :: h :: qt :: qc :: nrr :: rest =>
+    let rr := takeRRs (nat! nrr) rest
+    match rr.2 with
+    | uk :: ca :: tok :: hasopt :: nopt :: rest' =>
+      let uo := takeOpts (nat! nopt) rest'
+      let r : Req := ⟨fam! rf, nat! ra, nat! h, nat! qt, nat! qc, rr.1⟩
+      let u : Up := ⟨uk != "0", bool! ca, nat! tok, if bool! hasopt then [⟨false, uo.1⟩] else []⟩
+      let res := serve s.env s.st r u
+      ({ s with st := res.1 }, showOut res.2)
+    | _ => (s, "bad-op")
+  | _ => (s, "bad-op")
+
+def main : IO Unit := loop step {}
+
 end Agd.Driver.C05
